@@ -7,6 +7,7 @@ import (
 	"0chain.net/chaincore/transaction"
 	"pgregory.net/rapid"
 	"verifharness/sim"
+	"verifharness/simminer"
 	"verifharness/vkit"
 )
 
@@ -28,8 +29,20 @@ func runMachineOps(t *testing.T, prop string, ops []string, rule string, stepsQu
 			reset() // per-case oracle state must not survive a failing case (rapid re-runs the property while shrinking)
 		}
 		m := newMachine(t, prop)
-		m.after = after
 		m.opsList = ops
+		if ops != nil {
+			// world variant: which of the two recorded hard forks are active (they gate 31 code paths of the contracts)
+			forks := rapid.SampledFrom([]string{"none", "demeter", "demeter+electra", "none", "demeter"}).Draw(t, "forks")
+			if forks != "none" {
+				m.do(simminer.AddHardfork(m.h, m.w.S.Owner, "demeter", m.h.Round, 0))
+			}
+			if forks == "demeter+electra" {
+				m.do(simminer.AddHardfork(m.h, m.w.S.Owner, "electra", m.h.Round, 0))
+			}
+			m.ops = 0
+			vkit.For(prop).Class("forks=" + forks)
+		}
+		m.after = after
 		n := rapid.IntRange(10, vkit.Scale(stepsQuick, stepsThorough)).Draw(t, "steps")
 		if ops == nil {
 			for i := 0; i < n; i++ {
